@@ -14,6 +14,7 @@ from ml_pipeline_engine.dag.enums import EdgeField
 from ml_pipeline_engine.dag.enums import NodeField
 from ml_pipeline_engine.dag.errors import OneOfDoesNotHaveResultError
 from ml_pipeline_engine.dag.errors import RecurrentSubgraphDoesNotHaveResultError
+from ml_pipeline_engine.dag.errors import SwitchDoesNotHaveCaseError
 from ml_pipeline_engine.dag.graph import DiGraph
 from ml_pipeline_engine.dag.graph import get_connected_subgraph
 from ml_pipeline_engine.dag.storage import DAGNodeStorage
@@ -597,7 +598,10 @@ class DAGRunConcurrentManager(DAGRunManagerLike):
 
         logger.debug('Prepare Switch DAG node_id=%s', node_id)
 
-        self._add_case_result(node_id)
+        try:
+            self._add_case_result(node_id)
+        except KeyError as ex:
+            await self.__raise_exc(SwitchDoesNotHaveCaseError(node_id, ex.args[0]))
 
         return await self._run_dag(
             dag=self._get_reduced_dag(
